@@ -23,9 +23,9 @@ def claim(pid, category, text, note, technique, design_ref):
 
 FORMULA_NOTE = ('Evaluators are resolved as the API\'s virtual call resolves them (vtable slot of the base declaration). '
                 'The long double instantiation of the same evaluators is additionally checked for type purity (no double-precision intermediate or double-rounded constant; perturbation model of narrowing as in C09). '
-                'The registration executed on the IR must bind every registered parameter name to a member of its own (parameter-binding obligation; replay assigns all names in both orders and reads them back). '
+                'Members that an evaluator of the class stores to and does not recompute (FP caches, bool/int "already computed" flags) are arbitrary remembered values. The registration executed on the IR must bind every registered parameter name to a member of its own (parameter-binding obligation; replay assigns all names in both orders and reads them back). '
                 'An obligation the solver does not decide within the budget is printed UNDECIDED (never counted as held); before that its replay is run at concrete '
-                'admissible points found by sampling under the obligation\'s path conditions, and a mismatch of the real library there is reported as a violation. '
+                'admissible points found by sampling under the obligation\'s path conditions (around the defaults, then with mirrored ranges for parameters whose sign no assumption fixes), and a mismatch of the real library there is reported as a violation. '
                 'Real-arithmetic model of floating point (exact +,-,*,/ and exact libm; rounding/overflow/libm accuracy outside the claim); '
                 'sin/cos abstracted to points on the unit circle, other transcendental atoms opaque with sound axioms; '
                 'trusted: clang-14 lowering, irdump+Engine A (validated each run against the g++ build through the public API), '
@@ -79,7 +79,7 @@ claim('C09', 'other',
       'Solver-decidable part of the accuracy property, on the long double instantiation of every evaluator of the solutions of C01-C08: (1) every FP constant is the 64-bit rounding of a simple rational (a double-rounded constant fails), '
       '(2) perturbation model of type purity: each value narrowed to double is multiplied by (1+delta) and z3 decides whether the result depends on delta, (3) pi/PI initialisers call acosl for long double, '
       '(4) definedness in the real model: admissibility => every denominator of the Euler/Navier-Stokes/heat/Burgers/SA evaluator families is non-zero, '
-      '(5) no DBL_EPSILON-derived tolerance or iteration threshold in the long double slice. Flagged items are confirmed against a 50-digit evaluation (error > 2^-56 of the scale) before being reported. '
+      '(5) no DBL_EPSILON-derived tolerance or iteration threshold in the long double slice, and the iteration cap passed at each rtbis call site of the Sod evaluators lets the bracket shrink below the tolerance passed with it (width/2^cap < tolerance in long double). Flagged items are confirmed against a 50-digit evaluation (error > 2^-56 of the scale) before being reported. '
       'The formula layer of both instantiations is C01-C08.',
       'NOT decided and outside the claim: the quantitative bound (small multiple of unit roundoff) for the compiled arithmetic and glibc libm -- no solver here has a theory of binary floating point with sin/cos/pow/exp; overflow; effects of fast-math style compiler flags (the encoding uses -ffp-contract=off, no fast-math, like the -O0 baseline).',
       'symbolic execution of LLVM IR with a perturbation model of narrowing + type-relative constant analysis + SMT definedness queries', 'DESIGN.md §4 C09')
@@ -124,7 +124,7 @@ claim('C16', 'other',
       'In the default (exit) build and in a -DMASA_EXCEPTIONS -fexceptions build of the IR: every solution-dependent API template (130 per scalar type) called with symbolic arguments before any masa_init of its scalar type (both registries empty, and only the other registry initialised), masa_select_mms of an unknown (symbolic) handle and masa_init of an unknown (symbolic) solution name from a K=2 symbolic registry: '
       'the only path prints MASA FATAL ERROR, then reaches exit(1) / throw of int 1, with no store into pre-existing memory and the registry snapshot unchanged; '
       'in the exception build a second step from the state the caught failure leaves: the same failing call fails the same way again and every registered handle can still be selected.',
-      STRUCT_NOTE + ' Cleanup code on unwind edges is assumed not to touch the registry.', 'symbolic execution of LLVM IR in two build configurations (event-trace and store-set checking)', 'DESIGN.md §4 C16')
+      STRUCT_NOTE + ' Exception specifications are modelled: a throw unwinding through a landing pad that enforces one (filter -> __cxa_call_unexpected, __clang_call_terminate) is process termination, not a catchable int. Other cleanup code on unwind edges is assumed not to touch the registry.', 'symbolic execution of LLVM IR in two build configurations (event-trace and store-set checking)', 'DESIGN.md §4 C16')
 claim('C17', 'other',
       'Every extern "C" definition of cmasa.cpp executed with symbolic arguments against UNINTERPRETED MASA::masa_*<double> templates: exactly one call of the template the naming rule prescribes with the arguments in order, the result (value or status) is the callee\'s, '
       'masa_get_name leaves the callee\'s string in the caller buffer, masa_set_array/masa_get_array move length and contents for every length 0..4 (8 thorough) with the caller\'s *n on entry to masa_get_array an arbitrary (symbolic) integer; wrappers returning a constant are compared with the real template on every catalogue class. A wrapper definition that clang rejects as conflicting with its prototype in masa.h (g++ only warns) is reported as a wrapper C callers cannot reach.',
